@@ -2,6 +2,12 @@
 from facts import Sym, path_is, strip_generics, strip_sym, sym_arg, sym_calls, sym_is_call, sym_str, sym_through, sym_walk, is_foreign_exp
 from props.common import arg_syms, bool_switches, callee_method_name, calls_to, crate_stats, enum_arms, gates, in_cycle, kind_consistent, need, nonforeign_calls, one_method, recorder_impls, RECORDER_METHODS
 
+KEEP = [  # private helpers the rules name (kept as functions); every other non-exported, non-trait function is spliced into its callers
+    "Handle::new", "State::decrement_clients", "State::increment_clients", "State::new",
+    "State::push_metric", "State::register_metric", "State::should_send", "State::wake",
+    "metrics_exporter_tcp::convert_metadata_to_protobuf_encoded", "metrics_exporter_tcp::convert_metric_to_protobuf_encoded", "metrics_exporter_tcp::drive_connection", "metrics_exporter_tcp::generate_metadata_messages",
+    "metrics_exporter_tcp::next", "metrics_exporter_tcp::run_transport",
+]
 TITLE = "C11 TCP exporter streams whole frames to every connected client."
 CONFIGS = ["test-profile"]
 T = "metrics_exporter_tcp"
